@@ -1,6 +1,7 @@
 package checks
 
 import (
+	"bytes"
 	"fmt"
 	"math/rand"
 	"os"
@@ -29,7 +30,7 @@ func init() {
 		Level: "exploration",
 		Rule: "each case builds one canonical PDU (reference encoder, message = idx mod number of messages) and decodes it and M hostile variants with ngap.Decoder: " +
 			"every prefix (stride), single-bit flips, byte overwrites with 00/7F/80/FF, length/count saturation (FFFF counts, 0xBFFF / 0xC1..C4 length determinants, extension bits set), " +
-			"splices of two PDUs and uniformly random strings of 0..4096 octets. distinct = hash of the input; non-trivial = input differs from the canonical encoding",
+			"splices of two PDUs, uniformly random strings of 0..4096 octets, and amplification (runs of 2..160 fragment markers / FF / BFFF / 80 octets inserted at every position). distinct = hash of the input; non-trivial = input differs from the canonical encoding",
 		Assumptions: []string{
 			"allocation bound 64 MiB per call (the schema's own worst case is a few 65535-element list headers); inputs up to 4 KiB (fragmentation seeds up to 70 KiB in a separate family)",
 			"a call slower than 3 s is re-run alone; only a second slow run counts",
@@ -131,7 +132,7 @@ func mutateOnce(r *rand.Rand, base, other []byte) ([]byte, string) {
 		}
 		return b, "length-determinant"
 	case 6: // several edits
-		for k := 0; k < 2+r.Intn(6); k++ {
+		for k, n := 0, 2+r.Intn(6); k < n; k++ {
 			b[r.Intn(len(b))] = byte(r.Intn(256))
 		}
 		return b, "multi-edit"
@@ -158,11 +159,83 @@ func mutateOnce(r *rand.Rand, base, other []byte) ([]byte, string) {
 		return b, "set-high-bits"
 	default: // zero a run
 		i := r.Intn(len(b))
-		for k := i; k < len(b) && k < i+1+r.Intn(6); k++ {
+		for k, e := i, i+1+r.Intn(6); k < len(b) && k < e; k++ {
 			b[k] = 0
 		}
 		return b, "zero-run"
 	}
+}
+
+// ---- structure-aware edits: NGAP PDUs have a regular outer layout (3 header octets, open-type length, extension octet,
+// 2-octet IE count, then per IE: 2-octet id, criticality octet, open-type length, value). An edit INSIDE an IE value that
+// changes its size is only seen by the element parsers if the two enclosing length determinants are kept consistent.
+
+type ieSpan struct{ lenPos, lenSize, valStart, valLen int }
+
+func readLenDet(b []byte, at int) (n, size int, ok bool) {
+	if at >= len(b) {
+		return 0, 0, false
+	}
+	switch {
+	case b[at] < 0x80:
+		return int(b[at]), 1, true
+	case b[at] < 0xc0 && at+1 < len(b):
+		return int(b[at]&0x3f)<<8 | int(b[at+1]), 2, true
+	}
+	return 0, 0, false
+}
+
+func putLenDet(n int) []byte {
+	if n < 128 {
+		return []byte{byte(n)}
+	}
+	return []byte{0x80 | byte(n>>8), byte(n)}
+}
+
+// ngapIEs parses the outer layout of a canonical NGAP PDU; ok=false when the bytes do not have it.
+func ngapIEs(b []byte) (l1Pos, l1Size int, ies []ieSpan, ok bool) {
+	l1, sz, good := readLenDet(b, 3)
+	if !good || 3+sz+l1 != len(b) || l1 < 3 {
+		return
+	}
+	p := 3 + sz + 1
+	if p+2 > len(b) {
+		return
+	}
+	cnt := int(b[p])<<8 | int(b[p+1])
+	p += 2
+	for i := 0; i < cnt; i++ {
+		if p+3 >= len(b) {
+			return
+		}
+		n, lsz, good := readLenDet(b, p+3)
+		if !good || p+3+lsz+n > len(b) {
+			return
+		}
+		ies = append(ies, ieSpan{p + 3, lsz, p + 3 + lsz, n})
+		p += 3 + lsz + n
+	}
+	return 3, sz, ies, p == len(b)
+}
+
+// insertConsistent inserts run at offset off inside the value of IE k and fixes the IE's and the PDU's length determinants.
+func insertConsistent(b []byte, l1Size int, ie ieSpan, off int, run []byte, replace int) []byte {
+	if off > ie.valLen {
+		off = ie.valLen
+	}
+	if off+replace > ie.valLen {
+		replace = ie.valLen - off
+	}
+	newVal := append(append(append([]byte(nil), b[ie.valStart:ie.valStart+off]...), run...), b[ie.valStart+off+replace:ie.valStart+ie.valLen]...)
+	if len(newVal) >= 16384 {
+		return nil
+	}
+	ieLen := putLenDet(len(newVal))
+	body := append(append(append(append([]byte(nil), b[3+l1Size:ie.lenPos]...), ieLen...), newVal...), b[ie.valStart+ie.valLen:]...)
+	if len(body) >= 16384 {
+		return nil
+	}
+	return append(append(append([]byte(nil), b[:3]...), putLenDet(len(body))...), body...)
 }
 
 func runC14(c *fw.Case) (o fw.Outcome) {
@@ -188,7 +261,7 @@ func runC14(c *fw.Case) (o fw.Outcome) {
 	if !decodeMonitored(&o, base, "canonical "+m.Name) {
 		return
 	}
-	family := c.Idx / len(ms) % 6
+	family := c.Idx / len(ms) % 7
 	switch family {
 	case 0: // prefixes
 		stride := 1
@@ -262,6 +335,70 @@ func runC14(c *fw.Case) (o fw.Outcome) {
 			}
 		}
 		o.Tag("family:saturation")
+	case 6: // amplification: runs of length-determinant octets INSERTED at every position (a count or length that is summed
+		// over fragment markers, or re-read in a loop, grows with the run; one planted octet stays within a few MiB)
+		stride := 1
+		if len(base) > 120 {
+			stride = len(base) / 120
+		}
+		for i := r.Intn(stride); i < len(base); i += stride {
+			for _, pat := range [][]byte{{0xc4}, {0xc1}, {0xff}, {0xbf, 0xff}, {0x80}} {
+				for _, n := range []int{2, 12, 48, 160} {
+					run := bytes.Repeat(pat, n)
+					b := append(append(append([]byte(nil), base[:i]...), run...), base[i:]...)
+					if len(b) > 4096 {
+						b = b[:4096]
+					}
+					if !decodeMonitored(&o, b, fmt.Sprintf("run of %d x %x inserted at %d in %s", n, pat, i, m.Name)) {
+						return
+					}
+				}
+			}
+		}
+		// the same runs planted INSIDE every IE value with the enclosing lengths kept consistent, inserted and overwriting
+		if _, l1Size, ies, ok := ngapIEs(base); ok {
+			o.Count("structure_aware_seeds", 1)
+			planted := 0
+			for _, ie := range ies { // IE values shortened at the end / in the middle, enclosing lengths consistent
+				for cut := 1; cut <= 4 && cut <= ie.valLen; cut++ {
+					for _, at := range []int{ie.valLen - cut, (ie.valLen - cut) / 2} {
+						if b := insertConsistent(base, l1Size, ie, at, nil, cut); b != nil {
+							if !decodeMonitored(&o, b, fmt.Sprintf("%d octets removed at offset %d of an IE value, enclosing lengths consistent, in %s", cut, at, m.Name)) {
+								return
+							}
+							o.Count("structure_aware_inputs", 1)
+						}
+					}
+				}
+			}
+			for _, ie := range ies {
+				st := 1
+				if ie.valLen > 12 {
+					st = ie.valLen / 12
+				}
+				for off := r.Intn(st); off <= ie.valLen && planted < 1500; off += st {
+					for _, pat := range [][]byte{{0xc4}, {0xc1}, {0xff}, {0xbf, 0xff}} {
+						for _, n := range []int{1, 12, 160} {
+							for _, repl := range []int{0, 1} {
+								if repl == 1 && n != 1 {
+									continue
+								}
+								planted++
+								b := insertConsistent(base, l1Size, ie, off, bytes.Repeat(pat, n), repl)
+								if b == nil || len(b) > 4096 {
+									continue
+								}
+								if !decodeMonitored(&o, b, fmt.Sprintf("run of %d x %x at offset %d of an IE value (replacing %d), enclosing lengths consistent, in %s", n, pat, off, repl, m.Name)) {
+									return
+								}
+								o.Count("structure_aware_inputs", 1)
+							}
+						}
+					}
+				}
+			}
+		}
+		o.Tag("family:amplification")
 	}
 	return
 }
